@@ -51,6 +51,16 @@ def explore(ctx, which):
             rs = (rulesets.gen_near_tie_ruleset(ctx.rng) if k % 10 == 3 else rulesets.gen_close_lines_ruleset(ctx.rng) if k % 10 == 7
                   else rulesets.gen_ruleset(ctx.rng))
             sb, scs, folder = ctx.rng.choice(FLAGSETS)
+            if k % 10 == 5:
+                # --skip_brute on a ruleset whose Markov line carries a probability that Python prints in exponent notation
+                # (a ruleset trained with a coverage close to 1) or with many digits: the rescaling divides by 1 - that number
+                rs = rulesets.gen_ruleset(ctx.rng, with_markov=True)
+                pm = ctx.rng.choice([1.9999999999935525e-05, 1e-07, 3e-300, 5e-324, 0.09999999999999999, 1e-05])
+                rs["grammar"] = [(s_, pm if s_ == "M" else p_) for s_, p_ in rs["grammar"]]
+                if len(rs["grammar"]) > 1 and rs["grammar"][0][0] == "M" and ctx.rng.random() < 0.5:
+                    rs["grammar"] = rs["grammar"][1:] + rs["grammar"][:1]
+                sb, folder = True, "Grammar"
+                dist["skip_brute_exponent_markov_family"] = dist.get("skip_brute_exponent_markov_family", 0) + 1
         qsize = [None, None, 2, 6, 16][k % 5]
         dist["near_tie_family"] = dist.get("near_tie_family", 0) + (k % 10 == 3 and not fam)
         dist["close_adjacent_lines_family"] = dist.get("close_adjacent_lines_family", 0) + (k % 10 == 7 and not fam)
